@@ -211,7 +211,7 @@ theorem new_instance_latest (ms : Option (List Mapping)) (kw : Obj) :
     (a document without a `version` key is accepted as version 1) comes out at `len ms + 1` -/
 def VersionStatement : Prop :=
   ∀ (ms : List Mapping) (d r : Json) (v : Int), effectiveVersion d = some v → 1 ≤ v →
-    v ≤ (ms.length : Int) + 1 → convertDict d ms = .ok r → docVersion r = some ((ms.length : Int) + 1)
+    v ≤ (ms.length : Int) + 1 → convertDict d ms = .ok r → effectiveVersion r = some ((ms.length : Int) + 1)
 
 /-- full-strength composition statement -/
 def ComposeStatement : Prop :=
@@ -233,7 +233,8 @@ theorem effectiveVersion_of_docVersion {d : Json} {v : Int} (h : docVersion d = 
 theorem version_partial (ms : List Mapping) (d r : Json) (v : Int) (hw : wfHistory ms = true)
     (hk : docVersion d = some v) (_ : effectiveVersion d = some v) (h1 : 1 ≤ v)
     (h2 : v ≤ (ms.length : Int) + 1) (h : convertDict d ms = .ok r) :
-    docVersion r = some ((ms.length : Int) + 1) := convert_version ms d r v hw hk h1 h2 h
+    effectiveVersion r = some ((ms.length : Int) + 1) :=
+  effectiveVersion_of_docVersion (convert_version ms d r v hw hk h1 h2 h)
 
 theorem compose_partial (ms : List Mapping) (d d1 : Json) (v : Int) (k : Nat) (hw : wfHistory ms = true)
     (hk : docVersion d = some v) (_ : effectiveVersion d = some v) (h1 : 1 ≤ v)
@@ -314,6 +315,9 @@ theorem deser_default_history_partial {α} (rest : Json → α) (d : Json) (v : 
     (hv : docVersion d = some v) : deserVersioned rest (some []) d = .ok (rest d) := by
   rcases docVersion_obj hv with ⟨kvs, rfl, hg⟩
   simp only [deserVersioned, hg]
+
+/-- the `Bool` comparison of outcomes used by the driver-evaluated laws means equality -/
+theorem beq_sound (a b : R Json) (h : sameResult a b = true) : a = b := sameResult_sound h
 
 /-! ### non-vacuity -/
 
